@@ -30,6 +30,7 @@ func init() {
 	vRegister("H_C16_StreamRoundTrip", H_C16_StreamRoundTrip)
 	vRegister("H_C16_Hostile", H_C16_Hostile)
 	vRegister("H_C16_Isolation", H_C16_Isolation)
+	vRegister("H_C16_Relabelled", H_C16_Relabelled)
 	vRegister("H_C16_TooLong", H_C16_TooLong)
 	vRegister("H_C16_Outbound", H_C16_Outbound)
 }
@@ -149,6 +150,68 @@ func H_C16_Isolation() {
 		vAssert(replied == accept, "c16.iso.str-acted-iff-own-label")
 		vAssert(conn.closed >= 1, "c16.iso.str-closed")
 		vCover("c16.iso.str")
+	}
+}
+
+// C16 with encryption: two logical clusters that share a gossip key. Traffic sealed for one label and then given
+// the other cluster's clear-text header (a relabelling relay, a mis-set outer layer, an on-path rewrite) has no
+// effect: the label is bound into the seal as associated data on packets and on streams. The same traffic under
+// its own label is accepted (control).
+func H_C16_Relabelled() {
+	key := vBytes(16)
+	mine := string(vBytes(vPick(3)))
+	relabel := vPick(2) == 1
+	theirs := mine
+	if relabel {
+		theirs = string(vBytes(vPick(3)))
+		vAssume(!vEqStr(mine, theirs))
+	}
+	ca, cb := vBaseConfig(), vBaseConfig()
+	cb.Name = vPeerA
+	ca.Label, cb.Label = theirs, mine
+	for _, c := range []*Config{ca, cb} {
+		kr, _ := NewKeyring(nil, key)
+		c.Keyring = kr
+	}
+	fa, fb := vNewML(ca), vNewML(cb)
+	fb.vAddSelfNamed(vPeerA)
+	fb.del = &vDelegateRec{}
+	cb.Delegate = fb.del
+	to := Address{Addr: "10.0.0.2:7946", Name: vPeerA}
+	payload := vBytes(2)
+	rehead := func(wire []byte) []byte {
+		body := wire[labelOverhead(theirs):]
+		if mine == "" {
+			return body
+		}
+		return makeLabelHeader(mine, body)
+	}
+	if vPick(2) == 0 {
+		msg := append([]byte{byte(userMsg)}, payload...)
+		vAssert(fa.m.rawSendMsgPacket(to, nil, msg) == nil, "c16.relabel.pkt-send")
+		vAssert(len(fa.tr.packets) == 1, "c16.relabel.pkt-sent")
+		fb.m.ingestPacket(rehead(fa.tr.packets[0]), vAddr("10.0.0.1:7946"), vNow())
+		n := fb.m.lowPriorityMsgQueue.Len()
+		if relabel {
+			vAssert(n == 0, "c16.relabel.pkt-sealed-for-another-label-has-no-effect")
+			vCover("c16.relabel.pkt")
+		} else {
+			vAssert(n == 1, "c16.relabel.pkt-own-label-accepted")
+			vCover("c16.relabel.pkt-own")
+		}
+	} else {
+		out := &vConn{}
+		fa.tr.conn = out
+		vAssert(fa.m.sendUserMsg(to, payload) == nil, "c16.relabel.str-send")
+		conn := &vConn{in: rehead(out.out)}
+		fb.m.handleConn(conn)
+		if relabel {
+			vAssert(len(fb.del.msgs) == 0, "c16.relabel.str-sealed-for-another-label-has-no-effect")
+			vCover("c16.relabel.str")
+		} else {
+			vAssert(len(fb.del.msgs) == 1 && vEqBytes(fb.del.msgs[0], payload), "c16.relabel.str-own-label-accepted")
+			vCover("c16.relabel.str-own")
+		}
 	}
 }
 
